@@ -1,5 +1,7 @@
 package transforms32
 
+import "math"
+
 // C19 (c) for the float32 pipeline (portable branch): 2-D wiring of DCT2DHash64 / DCT2DHash256 against the real 1-D
 // kernels on the same symbolic inputs (term identity).
 func zzSame32(a, b float32) bool { return zzSameTerm(float64(a), float64(b)) }
@@ -43,6 +45,44 @@ func zzC19_wiring32() {
 		for v := 0; v < k; v++ {
 			zzAssert(zzSame32(got[k*v+u], col[v]), "float32 DCT2DHash: flattens[k*v+u] is coefficient (u,v) of the separable 2-D transform")
 		}
+	}
+	zzReached("end")
+}
+
+// C19 (d) for the float32 pipeline: quickSelectMedian (shared by MedianOfPixels64/256) on 2..5 arbitrary values, ties
+// included: it terminates, leaves a permutation, and returns the rank-n/2 value (odd n) or a/2 + b/2 with b the upper
+// median and a another value not above it (even n).
+func zzRankIs32(q []float32, b float32, k int) bool {
+	less, leq := 0, 0
+	for i := range q {
+		less += zzB2I(q[i] < b)
+		leq += zzB2I(q[i] <= b)
+	}
+	return less <= k && leq > k
+}
+
+func zzC19_median32_N() int { return 4 }
+func zzC19_median32() {
+	n := 2 + zzPart()
+	q := zzF32s("p", n)
+	tmp := append([]float32{}, q...)
+	m := quickSelectMedian(tmp, 0, n-1, n/2)
+	if n%2 == 1 {
+		found := 0
+		for i := 0; i < n; i++ {
+			found += zzB2I(math.Float32bits(q[i]) == math.Float32bits(m))
+		}
+		zzAssert(found > 0 && zzRankIs32(q, m, n/2), "odd count: the median is the value of rank n/2")
+	} else {
+		ok := 0
+		for i := 0; i < n; i++ {
+			for j := 0; j < n; j++ {
+				if i != j && zzSame32(m, q[i]/2+q[j]/2) {
+					ok += zzB2I(q[i] <= q[j] && zzRankIs32(q, q[j], n/2))
+				}
+			}
+		}
+		zzAssert(ok > 0, "even count: the threshold is a/2 + b/2 with b the upper median and a another value not above it")
 	}
 	zzReached("end")
 }
